@@ -892,6 +892,13 @@ def misc_twins():
     yes = "fn yes_always() -> bool { true } "
     cases.append(("join", yes + guard % "join! { Some(8u32) ?? |v: &Option<u32>| { z(1, v); } |> |v| { z(2, &v); v } ~|> |v| { z(3, &v); v } }", "__r.is_err()",
                   "{ let o = Some(8u32); z(1, &o); let o = o.map(|v| { z(2, &v); v }); o.map(|v| { z(3, &v); v }) }", "sp:evaluated_during_unwinding"))
+    # (d) a block operand inside a wrapper of an async spawn macro (a move-only closure in an FnOnce wrapper, which is the shape
+    #     that can cross the 'static boundary): still evaluated once, in front of its step (seeded change C11-m)
+    for kind in ("join_async_spawn", "async_spawn"):
+        dsl = ("futures::future::ok::<_, ()>(Ok::<usize, ()>(1)) |> |v| { z(1, &0u8); v } => >>> |> { zc(2); let tag = ::std::sync::Arc::new(String::from(\"ab\")); "
+               "move |v: usize| { z(3, &v); v + tag.len() } } -> futures::future::ready, futures::future::ready(1usize)")
+        cases.append((kind, "", "run_async_val(async { %s! { %s }.await })" % (kind, dsl),
+                      "{ zc(2); z(1, &0u8); z(3, &1usize); (Ok::<usize, ()>(3usize), 1usize) }", "cap,sp:block_inside_wrapper_of_async_spawn"))
     for (kind, pre, mexpr, ref, tag) in cases:
         if tag == "sp:evaluated_during_unwinding":
             pre, ref = pre, ref
